@@ -2,7 +2,7 @@
 import json
 import random
 
-from harness import b1, gen, k2, randomop, termgen, tlc
+from harness import b1, bulk, gen, k2, randomop, termgen, tlc
 
 LEVEL = 'model_checking'
 
@@ -90,6 +90,84 @@ def random_check(chk, rnd, n):
         chk.notes['random_binding_demo'] = 'one repeated point changed by 1e-9: rejected by clause %s' % v['clause']
 
 
+def _lev(a, b, osa=False):
+    """independent implementation (self-check of the TLA+ definitions)"""
+    d = [[0] * (len(b) + 1) for _ in range(len(a) + 1)]
+    for i in range(len(a) + 1):
+        d[i][0] = i
+    for j in range(len(b) + 1):
+        d[0][j] = j
+    for i in range(1, len(a) + 1):
+        for j in range(1, len(b) + 1):
+            d[i][j] = min(d[i - 1][j] + 1, d[i][j - 1] + 1, d[i - 1][j - 1] + (a[i - 1] != b[j - 1]))
+            if osa and i > 1 and j > 1 and a[i - 1] == b[j - 2] and a[i - 2] == b[j - 1]:
+                d[i][j] = min(d[i][j], d[i - 2][j - 2] + 1)
+    return d[len(a)][len(b)]
+
+
+def strdist_check(chk):
+    """string_distance (VTLStrDist): TLC checks the metric laws over the pool and emits the expected distance of EVERY ordered pair of
+    strings of length <= 3 over {a, b, U+65E5}; the engine computes all of them in one bulk run per method."""
+    r = tlc.run('GenStrDist', 'GenStrDist.cfg', workers=8, timeout=3000)
+    if r.violated or 'Assumption' in r.output and 'is false' in r.output:
+        chk.violation('model metric laws (GenStrDist)', 'TLC: a metric law of VTLStrDist fails', r.output[-3000:])
+        return
+    tlc.must(r, 'GenStrDist')
+    chk.add('states', r.states)
+    chk.add('transitions', r.generated)
+    pairs = {}
+    for line in r.lines:
+        x = json.loads(line)
+        a = ''.join(chr(c) for c in x['a'])
+        for b, lev, osa, ham in (x['r'].values() if isinstance(x['r'], dict) else x['r']):
+            pairs[(a, ''.join(chr(c) for c in b))] = (lev, osa, ham)
+    for (a, b), (lev, osa, ham) in pairs.items():       # spec self-check
+        if (lev, osa) != (_lev(a, b), _lev(a, b, True)) or (ham >= 0 and ham != sum(x != y for x, y in zip(a, b))):
+            raise RuntimeError('spec self-check: VTLStrDist disagrees with the reference implementation on %r, %r' % (a, b))
+    keys = sorted(pairs)
+    st = bulk.struct('DS_S', [('Id_1', 'Integer', 'I'), ('Me_1', 'String', 'M'), ('Me_2', 'String', 'M')])
+    allrows = [[i, a, b] for i, (a, b) in enumerate(keys)]
+    eqrows = [r_ for r_ in allrows if len(r_[1]) == len(r_[2])]
+    jobs = [('levenshtein', allrows, 0), ('damerau_levenshtein', allrows, 1), ('hamming', eqrows, 2),
+            ('hamming', [r_ for r_ in eqrows if r_[1] and all(ord(c) < 128 for c in r_[1] + r_[2])], 2)]
+    args = [{'script': 'R := DS_S[calc d := string_distance(%s, Me_1, Me_2)];' % m, 'structures': [st], 'tables': {'DS_S': {'cols': ['Id_1', 'Me_1', 'Me_2'], 'rows': rows}}} for m, rows, _ in jobs]
+    hamming_all_failed = False
+    for ji, ((m, rows, col), res) in enumerate(zip(jobs, k2.pmap('harness.bulk:run_tables', args, 4))):
+        if ji == 3 and not hamming_all_failed:
+            continue            # the ASCII non-empty subset is only judged when the whole table could not be
+        chk.add('evaluations', len(rows))
+        if 'err' in res:
+            if ji == 2:
+                hamming_all_failed = True
+            cls = 'all equal-length pairs' if ji == 2 else 'non-empty ASCII pairs' if ji == 3 else 'all pairs'
+            chk.violation('string_distance %s error | %s | %s %s' % (m, cls, res['err'], (res.get('msg') or '')[-60:]), 'string_distance(%s, ...) over %s raised %s %s' % (m, cls, res['err'], res.get('msg')), res)
+            continue
+        tb = res['results']['R']
+        c = {n: k for k, n in enumerate(tb['cols'])}
+        bad = {}
+        for r_ in tb['rows']:
+            a, b = keys[r_[c['Id_1']]]
+            want = pairs[(a, b)][col]
+            got = r_[c['d']]
+            if got is None or float(got) != want:
+                cls = 'non-ASCII' if any(ord(ch) > 127 for ch in a + b) else 'empty string' if not a or not b else 'ASCII'
+                bad.setdefault(cls, (a, b, want, got))
+                bad[cls + '#'] = bad.get(cls + '#', 0) + 1
+        for cls in [k for k in bad if not k.endswith('#')]:
+            a, b, want, got = bad[cls]
+            chk.violation('string_distance %s value | %s' % (m, cls), 'string_distance(%s, %r, %r): expected %s, engine %s (%d pairs of this class wrong)' % (m, a, b, want, got, bad[cls + '#']), {})
+        if not bad:
+            chk.add('traces_validated_against_impl', len(rows))
+    # hamming over strings of different length is a VTL error
+    res = bulk.run_tables({'script': 'R := DS_S[calc d := string_distance(hamming, Me_1, Me_2)];', 'structures': [st], 'tables': {'DS_S': {'cols': ['Id_1', 'Me_1', 'Me_2'], 'rows': [[0, 'ab', 'abb']]}}})
+    chk.add('evaluations')
+    if 'err' not in res:
+        chk.violation('string_distance hamming | unequal length accepted', 'hamming of strings of different length returned a value', res)
+    elif res['err'].startswith('RAW:'):
+        chk.violation('string_distance hamming | raw:%s' % res['err'][4:], 'hamming of strings of different length: raw error %s %s' % (res['err'], res.get('msg')), res)
+    chk.sample({'string_distance': '%d ordered pairs x levenshtein / damerau_levenshtein, %d equal-length pairs x hamming' % (len(allrows), len(eqrows)), 'example': ['ab', 'ba', list(pairs[('ab', 'ba')])]})
+
+
 def show(v):
     return 'null' if v[0] == 0 else '%.6f' % (v[1] / 1e9)
 
@@ -126,6 +204,7 @@ def main(chk):
     # in / not_in against value domains of the environment (growth: run(value_domains=...))
     b1.validate(chk, termgen.random_vd_units(rnd, 60 if quick else 1500), lambda u: 'value domain | ' + keyfn(u), pack=1)
     random_check(chk, rnd, 25 if quick else 400)
+    strdist_check(chk)
     b1.binding_demo(chk, lu, lo, corrupt)
     chk.cov['rule'] = ('B1: every transition of the TLC model GenOps (combination tables meeting every pair of pool values incl. null, '
                        'zero, negative, fractional; every operator at dataset, dataset-scalar, scalar-dataset and component level; every '
